@@ -114,7 +114,8 @@ def run(ctx):
                 "empty (t), unset (u), names of earlier variables, or (every 4th/6th case) expression text; printed with minimal "
                 "parentheses (plus explicit Paren nodes), spaced or tight; plus arbitrary/mutated token sequences and pinned "
                 "literal strings; cases whose big-integer reference evaluation leaves int64 or shifts by a count outside 0..63 "
-                "are dropped. non-trivial = distinct source text with at least one operator")
+                "are dropped. for (( )) programs include bodies with break/continue [N], nested loops and a read of the loop variables after "
+                "the loop. non-trivial = distinct source text with at least one operator")
     # ------------------------------------------------------------ search on the library entry point
     for r in rows:
         src = bytes.fromhex(r["src"]).decode("latin1")
